@@ -59,6 +59,9 @@ type GenSpec struct {
 	StoreSnaps bool
 	BigBatches bool
 	KeepFiles  bool
+	CloseTail  bool // close collection/store with handles open, re-read, close handles in any order
+	KeyPoolMax int
+	ReopenCfg  bool // reopen may change options
 	Compaction []int // choices; nil = {0,1,2}
 	// NoChildOnly excludes batches whose top level is empty while children
 	// are mentioned (known findings F5/F11/F14).
@@ -77,8 +80,11 @@ type genState struct {
 	excluded int
 }
 
-func genKeyPool(t *rapid.T, hostile bool) [][]byte {
-	n := rapid.IntRange(1, 10).Draw(t, "nkeys")
+func genKeyPool(t *rapid.T, hostile bool, max int) [][]byte {
+	if max <= 0 {
+		max = 10
+	}
+	n := rapid.IntRange(1, max).Draw(t, "nkeys")
 	seen := map[string]bool{}
 	var out [][]byte
 	for i := 0; i < n; i++ {
@@ -344,7 +350,7 @@ func genHistory(t *rapid.T, spec *GenSpec) (*Program, int) {
 	p := &Program{Prop: spec.Prop}
 	p.Cfg = genConfig(t, spec)
 	g := &genState{spec: spec, model: NewNode(), deadKids: map[string]bool{}}
-	g.keys = genKeyPool(t, spec.Hostile)
+	g.keys = genKeyPool(t, spec.Hostile, spec.KeyPoolMax)
 	maxOps := spec.MaxOps
 	if maxOps == 0 {
 		maxOps = 40
@@ -393,7 +399,15 @@ func genHistory(t *rapid.T, spec *GenSpec) (*Program, int) {
 			}
 			p.Ops = append(p.Ops, o)
 		case 4:
-			p.Ops = append(p.Ops, Op{Kind: "reopen", Drain: true})
+			o := Op{Kind: "reopen", Drain: true}
+			if spec.ReopenCfg && chance(t, "recfg", 40) {
+				nc := genConfig(t, spec)
+				o.Cfg = &nc
+			}
+			if chance(t, "nosettle", 50) {
+				o.N = 1 // reopen at once, without waiting for pending unlinks
+			}
+			p.Ops = append(p.Ops, o)
 		case 5:
 			if len(snaps) >= 4 {
 				continue
@@ -453,7 +467,50 @@ func genHistory(t *rapid.T, spec *GenSpec) (*Program, int) {
 			p.Ops = append(p.Ops, Op{Kind: "ssnap", ID: nextID})
 			nextID++
 		case 11:
-			p.Ops = append(p.Ops, Op{Kind: "reopen", Drain: false})
+			o := Op{Kind: "reopen", Drain: false}
+			if chance(t, "nosettle", 50) {
+				o.N = 1
+			}
+			p.Ops = append(p.Ops, o)
+		}
+	}
+	if spec.CloseTail && chance(t, "closetail", 70) {
+		// close collection and store while handles are open, re-read, then
+		// close the remaining handles in a generated order
+		tail := []Op{{Kind: "closecoll"}}
+		for _, id := range snaps {
+			tail = append(tail, Op{Kind: "readsnap", ID: id})
+		}
+		for _, id := range iters {
+			tail = append(tail, Op{Kind: "iternext", ID: id, N: 1})
+		}
+		if p.Cfg.Backing == "store" {
+			tail = append(tail, Op{Kind: "closestore"})
+			for _, id := range snaps {
+				tail = append(tail, Op{Kind: "readsnap", ID: id})
+			}
+			for _, id := range iters {
+				tail = append(tail, Op{Kind: "iternext", ID: id, N: 1})
+			}
+		}
+		var closers []Op
+		for _, id := range snaps {
+			closers = append(closers, Op{Kind: "closesnap", ID: id})
+		}
+		for _, id := range iters {
+			closers = append(closers, Op{Kind: "closeiter", ID: id})
+		}
+		if len(closers) > 1 {
+			perm := rapid.Permutation(closers).Draw(t, "closeorder")
+			closers = perm
+		}
+		// sometimes interleave the closes before the collection/store close
+		if chance(t, "closefirst", 30) {
+			p.Ops = append(p.Ops, closers...)
+			p.Ops = append(p.Ops, tail...)
+		} else {
+			p.Ops = append(p.Ops, tail...)
+			p.Ops = append(p.Ops, closers...)
 		}
 	}
 	return p, g.excluded
